@@ -231,6 +231,34 @@ def _let_form(body: list[ast.stmt]) -> Optional[list[ast.stmt]]:
     return [ast.copy_location(ast.Return(value=ret), body[-1])]
 
 
+def _split_tuple_assign(s: ast.stmt) -> list[ast.stmt]:
+    """`a, b = (x, y)` -> `a = x; b = y` when no target name occurs on the right-hand side; `a = b = e` -> `a = e; b = a` for simple e."""
+    if isinstance(s, ast.Assign) and len(s.targets) == 1 and isinstance(s.targets[0], ast.Tuple) and isinstance(s.value, ast.Tuple) and len(s.targets[0].elts) == len(s.value.elts) \
+            and all(isinstance(t, ast.Name) for t in s.targets[0].elts):
+        tn = {t.id for t in s.targets[0].elts}
+        rn = {n.id for n in ast.walk(s.value) if isinstance(n, ast.Name)}
+        if not (tn & rn):
+            return [ast.copy_location(ast.Assign(targets=[t], value=v), s) for t, v in zip(s.targets[0].elts, s.value.elts)]
+    if isinstance(s, ast.Assign) and len(s.targets) > 1 and all(isinstance(t, ast.Name) for t in s.targets):
+        first = s.targets[0]
+        out = [ast.copy_location(ast.Assign(targets=[first], value=s.value), s)]
+        for t in s.targets[1:]:
+            out.append(ast.copy_location(ast.Assign(targets=[t], value=ast.Name(id=first.id, ctx=ast.Load())), s))
+        return out
+    return [s]
+
+
+def _split_all(node: ast.AST) -> None:
+    for n in ast.walk(node):
+        for fld in ("body", "orelse", "finalbody"):
+            blk = getattr(n, fld, None)
+            if isinstance(blk, list) and blk and isinstance(blk[0], ast.stmt):
+                new: list[ast.stmt] = []
+                for st in blk:
+                    new.extend(_split_tuple_assign(st))
+                setattr(n, fld, new)
+
+
 class Flattener:
     def __init__(self, model: PyModel, depth: int = MAX_DEPTH, allow=None, expr_only: bool = False):
         self.model = model
@@ -251,6 +279,8 @@ class Flattener:
                 n._zv_q = fi.qualname  # type: ignore[attr-defined]
         used: set[str] = set()
         fn.body = self._block(fi, fn.body, _stack + (qual,), used)
+        if not _stack:
+            _split_all(fn)
         ast.fix_missing_locations(fn)
         if not _stack:
             self.cache[qual] = fn
@@ -332,7 +362,8 @@ class Flattener:
     def _block(self, fi: FuncInfo, stmts: list[ast.stmt], stack: tuple, used: set) -> list[ast.stmt]:
         out: list[ast.stmt] = []
         for s in stmts:
-            out.extend(self._stmt(fi, s, stack, used))
+            for t in self._stmt(fi, s, stack, used):
+                out.extend(_split_tuple_assign(t))
         return out
 
     def _stmt(self, fi: FuncInfo, s: ast.stmt, stack: tuple, used: set) -> list[ast.stmt]:
